@@ -81,6 +81,28 @@ class Session(EventRule):
             self.local_events[f.npath] = 'IS_DIRTY'
         super().__init__(crates)
 
+    def classify(self, I, w, ci, args):
+        p = ci.nresolved or ci.npath or ''
+        if p.endswith('::next') and 'core::iter::range' in p and args and args[0][0] == 'ref':
+            r = I.read(w, args[0][1])
+            if r[0] == 'adt' and r[1].endswith('range::Range') and all(x[0] in ('sym', 'symoff') for x in r[3]):
+                return 'COUNTED'
+        return super().classify(I, w, ci, args)
+
+    def on_call(self, I, w, ci, args):
+        ev = self.classify(I, w, ci, args)
+        if ev == 'COUNTED':
+            # `for _ in a..b` over symbolic editor quantities: the body is analysed once and wrapped in a REPEAT label
+            r = I.read(w, args[0][1])
+            key, trace = w.st
+            opened = sum(1 for l in trace if l.startswith('REPEAT(')) - sum(1 for l in trace if l == '}')
+            self.sites.setdefault(ev, set()).add(ci.site())
+            if opened == 0:
+                lab = 'REPEAT(%s..%s){' % (atom_name(r[3][0]), atom_name(r[3][1]))
+                return [(w.with_st((key, trace + (lab,))), some(TOP))]
+            return [(w.with_st((key, trace + ('}',))), none())]
+        return super().on_call(I, w, ci, args)
+
     def outcomes(self, I, w, ci, args, ev):
         if ev == 'KEY':
             out = [('none', none())]
@@ -93,6 +115,8 @@ class Session(EventRule):
                 else:
                     out.append((v['name'], some(('adt', 'input::Input', vi, (('sym', 'typed'),)))))
             return out
+        if ev in ('E.cursor', 'E.len'):
+            return [('', ('sym', '%s#%d' % (ev[2:], len(w.st[1]))))]
         if ev == 'E.text':
             return [('', ('sym', 'line'))]
         if ev == 'E.text_mut':
@@ -150,6 +174,19 @@ class Session(EventRule):
             return 'CB:command_help(%s):%s' % (atom_name(args[1]) if len(args) > 1 else '?', outcome)
         return ev + (':' + outcome if outcome else '')
 
+    def on_symbranch(self, I, w, v, truth):
+        key, trace = w.st
+        def nm(x):
+            if x[0] == 'sym':
+                return x[1]
+            if x[0] == 'symoff':
+                return '%s%+d' % (x[1], x[2])
+            if x[0] == 'int' and x[2] is None and len(x[1]) == 1:
+                return str(next(iter(x[1])))
+            return '?'
+        lab = 'IF(%s %s %s):%s' % (nm(v[2]), v[1], nm(v[3]), 'T' if truth else 'F')
+        return w.with_st((key, trace + (lab,)))
+
     def step(self, I, w, ev, outcome, ci, args):
         key, trace = w.st
         if ev == 'KEY':
@@ -179,7 +216,12 @@ def api_words(lib, name):
     I = Interp([lib], rule)
     store, self_ref = cli_entry_store(I, prompt=('sym', 'prompt'))
     f = lib.fn(name)
-    exits = I.run(f, base.entry_args(f, self_ref), ('-', ()), store)
+    args = base.entry_args(f, self_ref)
+    for i in range(1, f.body['arg_count'] + 1):
+        ty = f.body['locals'][i]['ty']
+        if ty.get('k') == 'ref' and ty['to'].get('k') == 'str':
+            args[i - 1] = ('sym', 'prompt')      # Cli::set_prompt(new prompt)
+    exits = I.run(f, args, ('-', ()), store)
     out = set()
     for w, rv in exits:
         key, trace = w.st
